@@ -14,8 +14,9 @@ EXTENDS Naturals, Integers, Sequences, FiniteSets, TLC, Json, IOUtils
 Traces == ndJsonDeserialize(IOEnv.TRACE_FILE)
 Thr == {"A", "B", "C"}
 
-VARIABLES tid, l, ver, depth, trans, inflight, floor, inblk, qfloor, interf, first, reads, why
-vars == <<tid, l, ver, depth, trans, inflight, floor, inblk, qfloor, interf, first, reads, why>>
+VARIABLES tid, l, ver, depth, trans, inflight, floor, inblk, qfloor, interf, first, reads, why,
+          bsver      \* source version when the thread set out to enter its (outermost) block
+vars == <<tid, l, ver, depth, trans, inflight, floor, inblk, qfloor, interf, first, reads, why, bsver>>
 
 Tr == Traces[tid].ev
 E == Tr[l]
@@ -28,13 +29,13 @@ Init == /\ tid \in 1..Len(Traces) /\ l = 1 /\ ver = 0
         /\ inflight = [t \in Thr |-> FALSE] /\ floor = [t \in Thr |-> 0]
         /\ inblk = [t \in Thr |-> FALSE]
         /\ qfloor = 0 /\ interf = [t \in Thr |-> FALSE] /\ first = [t \in Thr |-> -1]
-        /\ reads = [t \in Thr |-> 0] /\ why = "ok"
+        /\ reads = [t \in Thr |-> 0] /\ why = "ok" /\ bsver = [t \in Thr |-> 0]
 
 Adv == l' = l + 1 /\ tid' = tid
 
 Bump == /\ E.e = "bump" /\ ver' = ver + 1
         /\ qfloor' = IF Quiet(depth, trans, inflight) THEN ver + 1 ELSE qfloor
-        /\ UNCHANGED <<depth, trans, inflight, floor, inblk, interf, first, reads, why>>
+        /\ UNCHANGED <<depth, trans, inflight, floor, inblk, interf, first, reads, why, bsver>>
 
 \* the thread is about to enter: it may have to wait for the object's lock
 BlockStart == /\ E.e = "bs"
@@ -44,46 +45,50 @@ BlockStart == /\ E.e = "bs"
                    THEN /\ interf' = [interf EXCEPT ![E.t] = \E u \in Thr \ {E.t} : inflight[u]]
                         /\ first' = [first EXCEPT ![E.t] = -1]
                         /\ reads' = [reads EXCEPT ![E.t] = 0]
-                   ELSE UNCHANGED <<interf, first, reads>>
+                        /\ bsver' = [bsver EXCEPT ![E.t] = ver]
+                   ELSE UNCHANGED <<interf, first, reads, bsver>>
               /\ UNCHANGED <<ver, inflight, floor, inblk, qfloor, why>>
 
 \* the block is entered (lock held): its own bookkeeping starts here
 BlockEntered == /\ E.e = "be" /\ trans' = [trans EXCEPT ![E.t] = FALSE]
-                /\ UNCHANGED <<ver, depth, inflight, floor, inblk, qfloor, interf, first, reads, why>>
+                /\ UNCHANGED <<ver, depth, inflight, floor, inblk, qfloor, interf, first, reads, why, bsver>>
 
 ExitStart == /\ E.e = "xs" /\ trans' = [trans EXCEPT ![E.t] = TRUE]
-             /\ UNCHANGED <<ver, depth, inflight, floor, inblk, qfloor, interf, first, reads, why>>
+             /\ UNCHANGED <<ver, depth, inflight, floor, inblk, qfloor, interf, first, reads, why, bsver>>
 
 ExitEnd == /\ E.e = "xe"
            /\ trans' = [trans EXCEPT ![E.t] = FALSE]
            /\ depth' = [depth EXCEPT ![E.t] = @ - 1]
            /\ qfloor' = IF Quiet(depth', trans', inflight) THEN ver ELSE qfloor
-           /\ UNCHANGED <<ver, inflight, floor, inblk, interf, first, reads, why>>
+           /\ UNCHANGED <<ver, inflight, floor, inblk, interf, first, reads, why, bsver>>
 
 CallStart == /\ E.e = "cs"
              /\ floor' = [floor EXCEPT ![E.t] = IF Quiet(depth, trans, inflight) THEN ver ELSE qfloor]
              /\ inflight' = [inflight EXCEPT ![E.t] = TRUE]
              /\ inblk' = [inblk EXCEPT ![E.t] = depth[E.t] > 0]
              /\ interf' = [t \in Thr |-> interf[t] \/ (t # E.t /\ (depth[t] > 0 \/ trans[t]))]
-             /\ UNCHANGED <<ver, depth, trans, qfloor, first, reads, why>>
+             /\ UNCHANGED <<ver, depth, trans, qfloor, first, reads, why, bsver>>
 
 Read == /\ E.e = "rd"
         /\ IF depth[E.t] > 0
              THEN /\ first' = [first EXCEPT ![E.t] = IF @ = -1 THEN E.v ELSE @]
                   /\ reads' = [reads EXCEPT ![E.t] = @ + 1]
-             ELSE UNCHANGED <<first, reads>>
+             ELSE UNCHANGED <<first, reads, bsver>>
         /\ why' = IF E.v # ver THEN "simkernel served a version that is not current" ELSE why
-        /\ UNCHANGED <<ver, depth, trans, inflight, floor, inblk, qfloor, interf>>
+        /\ UNCHANGED <<ver, depth, trans, inflight, floor, inblk, qfloor, interf, bsver>>
 
 CallRet == /\ E.e = "cr"
            /\ inflight' = [inflight EXCEPT ![E.t] = FALSE]
            /\ qfloor' = IF Quiet(depth, trans, inflight') THEN ver ELSE qfloor
            /\ why' = IF E.exc # "" THEN "NoSpuriousError: " \o E.exc
                      ELSE IF ~(floor[E.t] <= E.v /\ E.v <= ver) THEN "VersionWindow"
+                     \* "first read IN THAT BLOCK": whatever other threads do, a value served inside a block was
+                     \* read from the source after the thread set out to enter the block
+                     ELSE IF inblk[E.t] /\ E.v < bsver[E.t] THEN "ReadInBlock"
                      ELSE IF inblk[E.t] /\ ~interf[E.t] /\ E.v # first[E.t] THEN "BlockSnapshot"
                      ELSE IF inblk[E.t] /\ ~interf[E.t] /\ reads[E.t] > 1 THEN "AtMostOneRead"
                      ELSE why
-           /\ UNCHANGED <<ver, depth, trans, floor, inblk, interf, first, reads>>
+           /\ UNCHANGED <<ver, depth, trans, floor, inblk, interf, first, reads, bsver>>
 
 Next == /\ why = "ok" /\ l <= Len(Tr) /\ Adv
         /\ (Bump \/ BlockStart \/ BlockEntered \/ ExitStart \/ ExitEnd \/ CallStart \/ Read \/ CallRet)
